@@ -46,6 +46,9 @@ CHECKS = {
  "C17": ("exploration", "legality/uniqueness predicate (independent EDIF identifier grammar) over identifiers stored after compose + reparse + direct make_valid calls",
          "adversarial sibling name sets in every scope: every identifier legal, unique ignoring case (also against sibling names), rename recorded, written file accepted and re-read names equal the originals.",
          "printable-ASCII names without quotes/newlines; two open findings fence long and '&_'-prefixed multi-bit net names", "4 C17"),
+ "C05": ("exploration", "reader vs abstract model: independent EDIF writer renders random abstract designs, parsed netlist compared with the model; bundled files via independent s-expression reader",
+         "every library/cell/port/instance/property/net/portRef of the text must appear exactly (pin positions in file order, bus bits merged at i-base with gaps), design selects the top, renames carry both names, output well-formed and self-contained.",
+         "only reader-implemented constructs are emitted; no comment inside keywordMap / design (reader does not implement them); port base index not compared", "4 C05"),
 }
 NA = {}
 fixes = subprocess.run(["git", "-C", "/repo", "log", "--format=%h %s"], capture_output=True, text=True).stdout.splitlines()
